@@ -14,6 +14,7 @@ functions over the two declared bounds, so that the C19 theorems are re-checked 
                      objects by identity), `structural` (a helper that recurses through get_type() and compares the
                      aggregate class at every level), `structuralNoKind` (recursion without comparing the class)
 
+  simpleSubclassPairs  the subclass relation among the classes of the simple types (SimpleDataTypes.py, by ast)
   membershipDefined  all four containers define __contains__ as `return value is not None and value in self._container`
   builtinMethod      which container method each EXPRESS built-in function of Builtin.py (SIZEOF HIINDEX LOINDEX HIBOUND LOBOUND
                      VALUE_UNIQUE) returns, after its `isinstance(V, Aggregate)` guard
@@ -273,7 +274,42 @@ def _bounds_checked(repo):
     return True
 
 
+SIMPLE_TAGS = {"INTEGER": 0, "STRING": 1, "REAL": 2, "BOOLEAN": 3, "LOGICAL": 4, "NUMBER": 5, "BINARY": 8}
+
+
+def _simple_hierarchy(repo):
+    """the subclass relation among the classes of the simple types in SimpleDataTypes.py (transitive, without the reflexive
+    pairs), as pairs of type tags (sub, super): `check_type` is `isinstance`, so this relation is what decides which value
+    types a simple base type accepts.  BOOLEAN must be the alias `BOOLEAN = bool`."""
+    rel = os.path.join("src", "exp2python", "python", "stepcode", "SimpleDataTypes.py")
+    tree = ast.parse(open(os.path.join(repo, rel)).read())
+    bases, alias = {}, {}
+    for n in tree.body:
+        if isinstance(n, ast.ClassDef):
+            bases[n.name] = [b.id for b in n.bases if isinstance(b, ast.Name)]
+        elif isinstance(n, ast.Assign) and len(n.targets) == 1 and isinstance(n.targets[0], ast.Name) and isinstance(n.value, ast.Name):
+            alias[n.targets[0].id] = n.value.id
+    for k in SIMPLE_TAGS:
+        if k == "BOOLEAN":
+            if alias.get("BOOLEAN") != "bool":
+                raise ValueError("SimpleDataTypes.py: BOOLEAN is no longer the alias `BOOLEAN = bool`")
+        elif k not in bases:
+            raise ValueError(f"SimpleDataTypes.py: class {k} not found")
+
+    def supers(c, seen=()):
+        out = set()
+        for b in bases.get(alias.get(c, c), []):
+            b = alias.get(b, b)
+            if b not in seen:
+                out.add(b); out |= supers(b, seen + (b,))
+        return out
+    # python's bool is a subclass of int, not of INTEGER / LOGICAL: nothing to add for BOOLEAN
+    pairs = sorted((SIMPLE_TAGS[c], SIMPLE_TAGS[b]) for c in SIMPLE_TAGS if c != "BOOLEAN" for b in supers(c) if b in SIMPLE_TAGS)
+    return pairs
+
+
 def extract(repo):
+    hier = _simple_hierarchy(repo)
     mode = _cmp_mode(repo)
     bchk = _bounds_checked(repo)
     bi = _builtins(repo)
@@ -318,6 +354,9 @@ def extract(repo):
     out = f"""-- GENERATED by tools/extract.d/pyagg.py from {REL}
 namespace StepModel.Generated
 
+/-- the subclass relation among the classes of the simple types (SimpleDataTypes.py; tags INTEGER 0, STRING 1, REAL 2,
+BOOLEAN 3, LOGICAL 4, NUMBER 5, BINARY 8), transitive, as pairs (subclass, class): what `isinstance` adds to "the value's own class" -/
+def simpleSubclassPairs : List (Nat × Nat) := [{", ".join("(%d, %d)" % p for p in hier)}]
 /-- ARRAY, LIST, BAG and SET define `__contains__` as `return value is not None and value in self._container` (EXPRESS `IN`);
 `false`: none does (python falls back to `__getitem__` from 0 — LIST answers False for everything — or raises TypeError) -/
 def membershipDefined : Bool := {"true" if all(has) else "false"}
